@@ -54,7 +54,7 @@ struct Msg {
 };
 
 enum Term { T_END, T_INCOMPLETE, T_REJECT, T_MAY };
-struct Result { std::vector<Msg> msgs; Term term = T_END; std::string reason; size_t term_pos = 0; uint32_t term_features = 0; std::string term_method; };
+struct Result { std::vector<Msg> msgs; Term term = T_END; std::string reason; size_t term_pos = 0; uint32_t term_features = 0; std::string term_method; bool term_content = false; /* the terminal message announces content (chunked or Content-Length > 0) */ };
 
 struct Options { bool (*known_method)(const std::string &) = nullptr; };
 
@@ -110,7 +110,7 @@ static inline int parse_field(const std::string &line, Field &f, std::string &re
 static inline Result parse(const std::string &s, const Options &opt) {
   using namespace detail;
   Result R; size_t pos = 0;
-  auto stop = [&](Term t, const char *why, const Msg &m) { R.term = t; R.reason = why; R.term_pos = m.begin; R.term_features = m.features; R.term_method = m.method; };
+  auto stop = [&](Term t, const char *why, const Msg &m) { R.term = t; R.reason = why; R.term_pos = m.begin; R.term_features = m.features; R.term_method = m.method; R.term_content = m.chunked || (m.has_cl && m.cl > 0); };
   for (;;) {
     Msg m; m.begin = pos;
     if (pos >= s.size()) { R.term = T_END; R.term_pos = pos; return R; }
